@@ -6,6 +6,7 @@ import ast
 from ..core import rule
 from ..errors import AnalysisError
 from ..px import PX
+from .util import same_class
 from ..pxv import Obj, Sym
 from ..te import ClassRef, FuncRef, Member
 
@@ -54,7 +55,7 @@ def r18_1(ctx):
     decos = [d for d in f.decorators]
     ctx.require(decos == ["classmethod"], "decorators", f"from_ember_status is decorated with {decos}: anything beyond @classmethod (e.g. a cache "
                 "keyed by value) can make the result depend on earlier calls", func=f)
-    px = PX(repo, inline=lambda g, aw: False)
+    px = PX(repo, inline=same_class(extra=()))
     ok_m = sl.members()["OK"]
     fail_m = sl.members().get("FAIL")
     ctx.anchor(fail_m is not None, "sl_Status.FAIL")
@@ -85,7 +86,7 @@ def r18_3(ctx):
     """Every defined unified status, and undefined 32-bit samples, pass through unchanged."""
     repo = ctx.repo
     sl, f = conv(ctx)
-    px = PX(repo, inline=lambda g, aw: False)
+    px = PX(repo, inline=same_class(extra=()))
     ms = sl.canonical_members()
     for m in ms + [Member(sl, "undefined_0x7fffffff", 0x7FFFFFFF), Member(sl, "undefined_0x0bad", 0x0BAD), Member(sl, "undefined_0xff", 0xFF)]:
         p = run_conv(ctx, px, sl, f, m)
@@ -100,7 +101,7 @@ def r18_4(ctx):
     NETWORK_DOWN, both SUCCESS codes); SL_STATUS_MAP is keyed by (family, code) and maps into the unified type."""
     repo = ctx.repo
     sl, f = conv(ctx)
-    px = PX(repo, inline=lambda g, aw: False)
+    px = PX(repo, inline=same_class(extra=()))
     for fam, src, dst in STEERING:
         c = repo.cls(NAMED, fam)
         ctx.anchor(src in c.members() and dst in sl.members(), f"{fam}.{src} / sl_Status.{dst}")
